@@ -7,7 +7,7 @@ import (
 	"verif/mc/gen/dyn"
 )
 
-func init() { props["C09"] = c09; programSets["C09"] = func(bool) []diffrun.Program { return dyn.Programs() } }
+func init() { props["C09"] = c09; programSets["C09"] = func(bool) []diffrun.Program { return append(dyn.Programs(), dyn.UnnamedProgram()) } }
 
 func c09(tier string) int {
 	start := time.Now()
@@ -16,9 +16,9 @@ func c09(tier string) int {
 		panic(err)
 	}
 	defer env.Close()
-	env.CheckAll(dyn.Programs(), []diffrun.Variant{diffrun.Plain, diffrun.Minified})
+	env.CheckAll(append(dyn.Programs(), dyn.UnnamedProgram()), []diffrun.Variant{diffrun.Plain, diffrun.Minified})
 	return finishDiff(env, "C09", tier, start,
-		"(U) all 27 receiver-kind assignments {absent, value, pointer} of the methods M, N, m of a struct type x 22 dynamic value forms (T, *T, value/pointer/interface embedding at depth 1 and 2, ambiguous and shadowed promotion, defined types and aliases, **T, nil *T) x 9 interfaces (all non-empty subsets of {M,N,m}, an embedding interface, the empty interface): comma-ok assertion, calls through every interface that is implemented with a receiver-identity trace, two type switches with different case orders, receiver sharing through interfaces / method values / method expressions; (I) type identity: 42 values (equally named types from different functions, packages with the same name, generic function instances, instantiations created in different packages, unnamed composites with exported and unexported fields from three packages) x type switches in three packages, all pairwise interface equalities, assertions to concrete and interface types across packages, unexported-method sealing, assertion-error classes, use as map keys; plain and minified vs native Go",
+		"(U) all 27 receiver-kind assignments {absent, value, pointer} of the methods M, N, m of a struct type x 22 dynamic value forms (T, *T, value/pointer/interface embedding at depth 1 and 2, ambiguous and shadowed promotion, defined types and aliases, **T, nil *T) x 9 interfaces (all non-empty subsets of {M,N,m}, an embedding interface, the empty interface): comma-ok assertion, calls through every interface that is implemented with a receiver-identity trace, two type switches with different case orders, receiver sharing through interfaces / method values / method expressions; (I) type identity: 42 values (equally named types from different functions, packages with the same name, generic function instances, instantiations created in different packages, unnamed composites with exported and unexported fields from three packages) x type switches in three packages, all pairwise interface equalities, assertions to concrete and interface types across packages, unexported-method sealing, assertion-error classes, use as map keys; (N) 64 unnamed composite types that differ pairwise in one attribute (variadic flag, channel direction, array length, field name / order / tag / embedding, parameter vs result, key vs element, method sets of element interfaces): every value asserted to every type and all pairs compared as interfaces; (S) every (static interface type, target interface type) pair of 8 interface types in comma-ok assertions, single-value assertions and type switches, on nil and on a value implementing everything; plain and minified vs native Go",
 		[]string{"reference = native Go on the same source"},
 		nil)
 }
